@@ -83,7 +83,7 @@ func init() {
 		Level:     "exploration",
 		Technique: "ground-truth cell comparison on a chain whose every field value is distinct and non-zero, over all singles and pairs of selectable field names per indexing mode (exhaustive) and random larger sets, through ValidateFix and the full pipeline",
 		Rule: fmt.Sprintf("field universe = the 28 documented block-data names; per mode (tx without event, log with event, trace) the mode-compatible names; %d singles and pairs are ALL run, plus random larger sets by membership class; "+
-			"each run indexes a 4-block chain in which every field of every item has its own non-zero value and compares every stored cell with what the source reported. signature = (mode, field set or class set, plan); trivial = no row expected. Half of the runs put a backend that is 1–2 blocks behind in front of a few requests (null blocks, receipts, traces; no logs for the newest blocks). Trace columns are renamed like the others; half of the trace-mode runs carry reward traces.", len(grid)),
+			"each run indexes a 4-block chain in which every field of every item has its own non-zero value and compares every stored cell with what the source reported. signature = (mode, field set or class set, plan); trivial = no row expected. Half of the runs put a backend that is 1–2 blocks behind in front of a few requests (null blocks, receipts, traces; no logs for the newest blocks). Trace columns are renamed like the others; half of the trace-mode runs carry reward traces. A third of the runs shares the source with a neighbour integration that needs headers only or whole blocks for the same ranges and steps before or after the integration under test.", len(grid)),
 		Assumptions: []string{
 			"log fields (log_idx, log_addr) are selectable only together with an event, trace fields only without one: other mixes dereference an absent item and are outside 'may select'",
 			"the configuration goes through ValidateFix, so automatically added identity fields are present as in production",
@@ -193,7 +193,30 @@ func c14One(c *vk.Case, set c14Set, seed uint64) {
 		})
 		c.Obs("runs_with_lagging_backend", 1)
 	}
-	spec := &scen.Spec{Sources: []scen.SourceSpec{{Name: namePoolSrc[0], ChainID: 9, Batch: 2, Concurrency: 1, Poll: "1h", Node: node}}, Decls: []*model.Decl{d}}
+	decls := []*model.Decl{d}
+	// a third of the runs shares the source (one client, one set of download caches) with a second integration whose
+	// selection needs another kind of download for the same block ranges (headers only, or whole blocks); the two take
+	// turns, one or the other first. What an integration is handed must not depend on what its neighbour asked for
+	var comp *model.Decl
+	compFirst := false
+	if r.Chance(1, 3) {
+		cf := "block_time"
+		if r.Bool() {
+			cf = "tx_input"
+		}
+		comp = &model.Decl{Name: namePoolIG[1], Enabled: true, Table: namePoolTbl[1], ColTypes: map[string]string{}, InFilter: map[string]model.Filter{}}
+		comp.Sources = []model.SrcRef{{Name: namePoolSrc[0], Start: 1}}
+		comp.Block = []model.BlockField{{Name: cf, Column: cf, ColType: gen.FieldByName(cf).ColType}}
+		if cf == "block_time" {
+			// headers are enough only for an integration that reads logs: the neighbour declares an event nobody emits
+			comp.EventName = "Neighbour"
+			comp.Inputs = c14Event
+		}
+		compFirst = r.Bool()
+		decls = append(decls, comp)
+		c.Obs("runs_with_neighbour_on_same_source", 1)
+	}
+	spec := &scen.Spec{Sources: []scen.SourceSpec{{Name: namePoolSrc[0], ChainID: 9, Batch: 2, Concurrency: 1, Poll: "1h", Node: node}}, Decls: decls}
 	env, err := scen.New(spec, false)
 	if err != nil {
 		c.Inconclusive("environment: %v", err)
@@ -208,15 +231,35 @@ func c14One(c *vk.Case, set c14Set, seed uint64) {
 		c.Violate("setup-rejected:mode="+set.mode.String()+":fields="+fs, merge(detail, map[string]any{"error": env.SetupErr.Error()}), "selection %s rejected at %s: %v", fs, env.SetupStage, env.SetupErr)
 		return
 	}
-	task := env.Tasks[0]
+	task := env.Task(namePoolSrc[0], d.Name)
+	if task == nil {
+		c.Inconclusive("task missing")
+		return
+	}
 	plan := task.VerifInfo().Filter
 	detail["plan"] = plan
+	var ctask *shovel.Task
+	if comp != nil {
+		if ctask = env.Task(namePoolSrc[0], comp.Name); ctask == nil {
+			c.Inconclusive("neighbour task missing")
+			return
+		}
+		detail["neighbour_plan"] = ctask.VerifInfo().Filter
+		detail["neighbour_first"] = compFirst
+		c.Seen("plan_pairs_sharing_a_source", plan+" next to "+ctask.VerifInfo().Filter)
+	}
 	pm := newPairMon(c, env, namePoolSrc[0], d.Name)
 	pm.first = 1
 	idle := 0
 	lastErr := ""
 	for i := 0; i < 40 && idle < 3; i++ {
+		if ctask != nil && compFirst {
+			env.Step(ctask)
+		}
 		res := env.Step(task)
+		if ctask != nil && !compFirst {
+			env.Step(ctask)
+		}
 		if res.Panic != "" {
 			fr := vk.TopShovelFrame(res.Panic)
 			c.Violate("panic:"+fr+":mode="+set.mode.String(), merge(detail, map[string]any{"panic": firstLines(res.Panic, 20)}), "Converge panicked in %s with fields %s", fr, fs)
